@@ -78,7 +78,7 @@ fn histories(maxlen: usize) -> Vec<Vec<Step>> {
 fn flagsets(th: bool, fifo: bool) -> Vec<i64> {
     let nb = if fifo { O_NONBLOCK } else { 0 };
     let mut v = vec![O_RDONLY | nb, O_WRONLY | O_NONBLOCK, O_RDWR | O_APPEND | nb, O_PATH, O_RDONLY | O_DIRECTORY | nb, O_RDONLY | O_NOFOLLOW | nb,
-                     O_CREAT | O_WRONLY | nb, O_TMPFILE | O_RDWR | nb, O_CREAT | O_EXCL | O_RDWR | nb];
+                     O_CREAT | O_WRONLY | nb, O_TMPFILE | O_RDWR | nb, O_CREAT | O_EXCL | O_RDWR | nb, (O_TMPFILE & !O_DIRECTORY) | O_RDWR | nb];
     // combinations openat(2) accepts silently (the kernel's /proc re-open is the reference for all of them)
     v.extend_from_slice(&[O_PATH | O_RDWR, O_PATH | O_APPEND, O_RDONLY | 0x4000_0000 | nb]);
     if th { v.extend_from_slice(&[O_RDONLY | O_NOATIME | nb, O_WRONLY | O_SYNC | O_NONBLOCK, O_RDWR | nb, O_PATH | O_DIRECTORY, O_RDONLY | O_NOCTTY | nb, O_EXCL | O_RDONLY | nb, O_WRONLY | O_DSYNC | O_APPEND | O_NONBLOCK, O_PATH | O_NOFOLLOW]); }
@@ -147,7 +147,7 @@ pub fn run_item(tier: &str, idx: usize, only: Option<&Value>) -> MResult<ItemRes
                 let obs = w.one(op.clone())?;
                 res.evaluations += 1;
                 res.transitions += 1;
-                let creation = fl & (O_CREAT | O_EXCL) != 0 || fl & O_TMPFILE == O_TMPFILE;
+                let creation = fl & (O_CREAT | O_EXCL) != 0 || fl & (O_TMPFILE & !O_DIRECTORY) != 0;
                 // expectation from the kernel, through the harness's own pin
                 let expect: Result<i32, i32> = if target == "l" { Err(libc::ELOOP) } else {
                     let c = cs(&format!("/proc/self/fd/{}", hfd.as_raw_fd()));
